@@ -261,12 +261,14 @@ func apiCall(c *caseT, ps []parsley.Parser, content []byte) J {
 	return res
 }
 
+var emitTreeSets bool
+
 func beginLine(c *caseT, idx int) J {
 	asks := [][]int{}
 	for _, a := range c.Asks {
 		asks = append(asks, []int{a.N, a.P})
 	}
-	return J{"ev": "begin", "case": idx, "G": c.G, "w": c.W, "B": c.B, "adm": c.Adm, "asks": asks, "root": c.Root, "c06": c.C06}
+	return J{"ev": "begin", "case": idx, "G": c.G, "w": c.W, "B": c.B, "adm": c.Adm, "asks": asks, "root": c.Root, "c06": c.C06, "treesets": emitTreeSets}
 }
 
 func eqJSON(a, b interface{}) bool { return reflect.DeepEqual(norm(a), norm(b)) }
@@ -287,6 +289,7 @@ func parseMain(mode string, a args) {
 }
 
 func parseReplay(a args) {
+	emitTreeSets = a.num("trees", 0) == 1
 	trace := newOut(a.str("trace", "/dev/null"))
 	budget := a.num("budget", 4000)
 	drift, viol := []J{}, []J{}
